@@ -12,14 +12,14 @@ replayed: coefficients `C := Nat` (index on the trajectory, `step = (· + 1)`, `
 fit <cls> <maxIter:int> <tol:bits> <hasC:0|1> <cbs> <old> <diff bits …>
     cbs : `-` (argument not given: class default) | `=item,item,…` (`=` alone: empty list)
     item: deviance | diffs | accuracy | coef | u/<name>/<start>/<end>
-          start/end: `-` no such hook | `.` hook without arguments | names joined by `+`
+          start/end: `-` no such hook | `<args>` | `<args>~<locals>`; args/locals: `.` none | names joined by `+`
     old : `-` | key*count,key*count      (entries already in logs_ before this fit)
   → ValueError | AssertionError | short | ok iters=k coef=k printed=b stats=b logs key=e|e|… key=…
     entries: old<i>  dev@k  acc@k  coef@k  diff:<bits>  us:<name>@k  ue:<name>@k>k':<bits>
 ctor <cls> <arg>            → <accepts 0|1> <forwards 0|1>
 defaults <cls>              → names
 effective <cls> <cbs>       → names of the callbacks the optimiser will see
-bind <start|end> <hasC> <names …> → ok | missing <names …>
+bind <start|end> <hasC> <args> <locals> → ok | missing <names …>      (args/locals as above)
 ```
 -/
 namespace PyGam.Drv.C20
@@ -33,12 +33,23 @@ def obs : Obs Nat Float String :=
     coefV := fun c => "coef@" ++ toString c
     diffV := fun d => "diff:" ++ showFloat d }
 
-def parseNames? (s : String) : Option (Option (List String)) :=
-  if s == "-" then some none
-  else if s == "." then some (some [])
+def parseList? (s : String) : Option (List String) :=
+  if s == "." then some []
   else
     let parts := s.splitOn "+"
-    if parts.any (· == "") then none else some (some parts)
+    if parts.any (· == "") then none else some parts
+
+/-- `-` ↦ no hook; `args` or `args~locals` ↦ (argument names, local-variable names) -/
+def parseNames? (s : String) : Option (Option (List String × List String)) :=
+  if s == "-" then some none
+  else
+    match s.splitOn "~" with
+    | [a] => (parseList? a).map (fun a => some (a, []))
+    | [a, l] => do
+        let a ← parseList? a
+        let l ← parseList? l
+        some (some (a, l))
+    | _ => none
 
 def parseItem? (s : String) : Option CB :=
   match s.splitOn "/" with
@@ -48,9 +59,11 @@ def parseItem? (s : String) : Option CB :=
       let st ← parseNames? st
       let en ← parseNames? en
       some { name := name
-             onStart := st.map (fun ex => ⟨ex, fun k c => s!"us:{name}@{k}" ++ (if k == c then "" else "!")⟩)
+             onStart := st.map (fun ex =>
+               ⟨ex.1, fun k c => s!"us:{name}@{k}" ++ (if k == c then "" else "!"), ex.2⟩)
              onEnd := en.map (fun ex =>
-               ⟨ex, fun k c c' d => s!"ue:{name}@{c}>{c'}:" ++ showFloat d ++ (if k == c then "" else "!")⟩) }
+               ⟨ex.1, fun k c c' d => s!"ue:{name}@{c}>{c'}:" ++ showFloat d ++ (if k == c then "" else "!"),
+                ex.2⟩) }
   | _ => none
 
 /-- `-` ↦ none (argument not given) ; `=a,b` ↦ some [a, b] -/
@@ -117,13 +130,16 @@ def handle : List String → Option String
       let cls ← ModelClass.ofName? cls
       let user ← parseCbs? cbs
       some (joinWith " " ((effectiveCallbacks (builtin obs) cls user).map (·.name)))
-  | "bind" :: hook :: hasC :: names => do
+  | ["bind", hook, hasC, args, locals] => do
       let hasC ← parseBool? hasC
       let avail ← match hook with
         | "start" => some (startVars hasC)
         | "end" => some (endVars hasC)
         | _ => none
-      let m := missing avail names
+      let args ← parseList? args
+      let locals ← parseList? locals
+      let h : Hook Unit := ⟨args, (), locals⟩
+      let m := missing avail h.bound
       some (if m.isEmpty then "ok" else "missing " ++ joinWith " " m)
   | _ => none
 end PyGam.Drv.C20
